@@ -135,6 +135,23 @@ where
         }
     }
 
+    // greater VS less_or_equal, greater_or_equal VS less:
+    // when exactly one of the bounds is exclusive, equal values exclude each other too.
+    if let (Some(lower), Some(upper)) = (maybe_greater.clone(), maybe_less_or_equal.clone()) {
+        if lower.item >= upper.item {
+            let msg = "The lower bound (`greater`) cannot be equal or higher than the upper bound (`less_or_equal`).";
+            let err = syn::Error::new(upper.span(), msg);
+            return Err(err);
+        }
+    }
+    if let (Some(lower), Some(upper)) = (maybe_greater_or_equal.clone(), maybe_less.clone()) {
+        if lower.item >= upper.item {
+            let msg = "The lower bound (`greater_or_equal`) cannot be equal or higher than the upper bound (`less`).";
+            let err = syn::Error::new(upper.span(), msg);
+            return Err(err);
+        }
+    }
+
     let maybe_lower_bound = maybe_greater.or(maybe_greater_or_equal);
     let maybe_upper_bound = maybe_less.or(maybe_less_or_equal);
 
